@@ -23,6 +23,7 @@ type GenConfig struct {
 	Annots     bool // tracer annotations (host level + backend level)
 	Pods       bool
 	ConfigMap  bool
+	Rich       bool // auth (basic/external/oauth), ssl-passthrough, tcp services, cors, whitelist...
 }
 
 func DefaultGen() GenConfig {
@@ -179,6 +180,46 @@ func (g *Gen) randomIngress(ns, name string, keep *IngressSpec) IngressSpec {
 			s.Annotations["maxconn-server"] = gen.Pick(r, []string{"10", "20"})
 		}
 	}
+	if g.C.Rich {
+		switch r.Intn(14) {
+		case 0:
+			s.Annotations["auth-type"] = "basic"
+			s.Annotations["auth-secret"] = gen.Pick(r, []string{"pw1", "pw1", "missing", "e/pw1"})
+		case 1:
+			s.Annotations["auth-url"] = gen.Pick(r, []string{"http://10.9.9.9:8000/auth", "svc://" + gen.Pick(r, g.C.Services) + ":80/auth", "svc://nosuch:80", "bad://x", "::"})
+			if r.Bool() {
+				s.Annotations["auth-external-placement"] = gen.Pick(r, []string{"backend", "frontend"})
+			}
+		case 2:
+			s.Annotations["oauth"] = "oauth2_proxy"
+		case 3:
+			s.Annotations["ssl-passthrough"] = "true"
+			if r.Bool() {
+				s.Annotations["ssl-passthrough-http-port"] = gen.Pick(r, []string{"80", "81", "9999"})
+			}
+		case 4:
+			s.Annotations["tcp-service-port"] = gen.Pick(r, []string{"7000", "7001"})
+		case 5:
+			s.Annotations["cors-enable"] = "true"
+		case 6:
+			s.Annotations["allowlist-source-range"] = "10.0.0.0/8"
+		case 7:
+			s.Annotations["auth-tls-secret"] = gen.Pick(r, []string{"ca1", "missing", "tls1"})
+		case 8:
+			s.Annotations["secure-backends"] = "true"
+			if r.Bool() {
+				s.Annotations["secure-verify-ca-secret"] = gen.Pick(r, []string{"ca1", "missing"})
+			}
+		case 9:
+			s.Annotations["redirect-to"] = "https://other.local/x"
+		case 10:
+			s.Annotations["server-alias"] = gen.Pick(r, []string{"alias.local", "b.local"})
+		case 11:
+			s.Annotations["blue-green-deploy"] = "group=blue=1,group=green=1"
+		case 12:
+			s.Annotations["session-cookie-name"] = "srv"
+		}
+	}
 	return s
 }
 
@@ -199,6 +240,16 @@ func (g *Gen) History() []string {
 			if r.Chance(3, 4) {
 				ops = append(ops, g.secOp(ns, s))
 			}
+		}
+	}
+	if g.C.Rich {
+		for _, ns := range g.C.Namespaces {
+			if r.Chance(3, 4) {
+				ops = append(ops, fmt.Sprintf("sec+%s/pw1!passwd!1!-", ns), fmt.Sprintf("sec+%s/ca1!ca!1!-", ns))
+			}
+		}
+		if g.C.ConfigMap || r.Chance(1, 2) {
+			ops = append(ops, "cm~"+gen.Pick(r, []string{"-", "strict-host=true", "auth-proxy=_front_auth:14415-14416", "external-has-lua=true", "strict-host=true;external-has-lua=true", "drain-support=true"}))
 		}
 	}
 	if g.C.Classes {
